@@ -55,6 +55,8 @@ def main():
     finally:
         subprocess.run(["git", "-C", "/repo", "worktree", "remove", "--force", wt])
         shutil.rmtree(ev, ignore_errors=True)
+        # the translators wrote lean/Tulz/Generated/* from the scratch worktree: put back what /repo says
+        subprocess.run([sys.executable, os.path.join(VERIF, "tools", "translate_all.py")], env=dict(os.environ, TULZ_REPO="/repo"), capture_output=True)
     print("alarms on benign refactorings: %d" % alarms)
     return 1 if alarms else 0
 
